@@ -169,6 +169,9 @@ func TestVerifPeriodLimit(t *testing.T) {
 		cfgs = append(cfgs, cfg{pq[0], pq[1], false, 0}, cfg{pq[0], pq[1], true, 0})
 	}
 	cfgs = append(cfgs, cfg{3, 2, true, 8 * 3600}, cfg{5, 2, true, 8*3600 + 1800})
+	// zones whose offset is not a multiple of the period (east and west of UTC): the aligned
+	// window edge then falls inside a UTC-aligned period
+	cfgs = append(cfgs, cfg{7, 2, true, 8 * 3600}, cfg{7, 1, true, -5 * 3600}, cfg{7, 2, true, 5*3600 + 1800}, cfg{4, 1, true, 3601})
 	var mine []cfg
 	for i, c := range cfgs {
 		if vrt.Shard(i) {
